@@ -81,7 +81,7 @@ CLAIMED = {
  },
  "C12": {
   "level": "exploration",
-  "technique": "bounded-exhaustive enumeration on the real code: all 256 functions x 6 orders x 3 kinds x 10 variable counts x 4 number types with shared/reused caches (drop+gc+rebuild for all 256x256 pairs, reorder, vars change); Natural: all pairs/triples of an 85-value boundary set, all shifts, conversions and 24 format templates; own Vec<u32> big-integer oracle",
+  "technique": "bounded-exhaustive enumeration on the real code: all 256 functions x 6 orders x 3 kinds x 10 variable counts x 4 number types with shared/reused caches (drop+gc+rebuild for all 256x256 pairs, reorder, vars change); Natural: all pairs/triples of an 85-value boundary set, all shifts, conversions and 24 format templates; own Vec<u32> big-integer oracle; all thread schedules with <= 2 preemptions (C07's controlled scheduler on the real manager) of two scripts that count through a caller-owned cache while another thread collects",
   "text": "sat_count is compared with popcount * 2^(vars-n) for every function, order, variable count and number type under every cache-reuse history in the bound; Natural's +, <<, >>, comparisons, conversions and textual output are compared with an independent school-arithmetic implementation on a boundary grid.",
   "note": "n<=4; 512-bit random operands replaced by the boundary grid; NaN ordering/formatting not judged",
   "ref": "3/C12"
@@ -95,7 +95,7 @@ CLAIMED = {
  },
  "C16": {
   "level": "model_checking",
-  "technique": "exhaustive enumeration of all call histories up to length 5 (thorough 6) over the name alphabet {'',a,b,c} on the real VarNameMap (no state pruning) and up to length 3/4 through the Manager API on 5 kinds, reference name model, table preservation check",
+  "technique": "exhaustive enumeration of all call histories up to length 5 (thorough 6) over the name alphabet {'',a,b,c} on the real VarNameMap (no state pruning) and up to length 3/4 through the Manager API on 5 kinds, reference name model, table preservation check; explicit-state BFS over distinct name vectors executing every transition (and every out-of-range set_var_name under catch_unwind) on the real object",
   "text": "Every call history in the bound runs on a fresh real object; after every call the name bijection invariants, error contents and (manager level) level/var permutations and the tables of all pre-existing handles are checked against the model.",
   "note": "no reordering inside these histories; unicode/random names not enumerated; VarNameMap::clone is outside the property (observed as outcome)",
   "ref": "3/C16"
@@ -130,14 +130,14 @@ CLAIMED = {
  },
  "C07": {
   "level": "model_checking",
-  "technique": "stateless exploration of ALL thread schedules of the real manager up to a preemption bound (cooperative scheduler over cfg(oxidd_verif) hooks at every lock / try-lock / gc phase / handle clone+drop / fork-join; blocking acquisitions carry a readiness predicate so deadlock is detected), 14 collision-forcing scripts x 3 kinds incl. OutOfMemory inside a forked join and the background collector thread adopted as a controlled daemon thread (schedule tree split into 16 disjoint parts), fresh manager per schedule; sequential-result + model + audit oracle; loom exploration (all interleavings incl. weak-memory behaviours, 2-3 threads) of the apply-cache bucket lock, code derived from the source text at build time",
+  "technique": "stateless exploration of ALL thread schedules of the real manager up to a preemption bound (cooperative scheduler over cfg(oxidd_verif) hooks at every lock / try-lock / gc phase / handle clone+drop / fork-join; blocking acquisitions carry a readiness predicate so deadlock is detected), 15 collision-forcing scripts x 3 kinds incl. OutOfMemory inside a forked join and the background collector thread adopted as a controlled daemon thread (schedule tree split into 16 disjoint parts), fresh manager per schedule; sequential-result + model + audit oracle; loom exploration (all interleavings incl. weak-memory behaviours, 2-3 threads) of the apply-cache bucket lock, code derived from the source text at build time",
   "text": "Every schedule with at most 2 preemptions (3 in the thorough tier for the two-thread scripts) of each script is executed on the real code; in every execution all results must denote the model's functions and equal the sequentially recomputed handles, no thread may panic or deadlock, and the final structural/reference-count audit and teardown must hold.",
   "note": "sequentially consistent interleavings at the instrumented points only (no weak-memory effects); background-GC condvar wake-up and rayon work stealing replaced by equivalent controlled forks; pointer backend not instrumented",
   "ref": "3/C07"
  },
  "C20": {
   "level": "model_checking",
-  "technique": "differential replay of bounded-exhaustive workloads (all 64x64 operand pairs x 8 connectives x 6 orders x 3 kinds, all depth-3/4 histories over 12 actions, TDD n=1 all tuples) incl. one 65536-node diagram, restrict of all functions in both cube orders and a count cache carried through every history, across 4 (thorough: 8) separately built feature configurations x 2-3 worker counts; transcript equality + truth-table model + structural/ref-count audit",
+  "technique": "differential replay of bounded-exhaustive workloads (all 64x64 operand pairs x 8 connectives x 6 orders x 3 kinds, all depth-3/4 histories over 12 actions, TDD n=1 all tuples) incl. one 65536-node diagram, restrict of all functions in both cube orders, all 7^3 sequences of variable/name bookkeeping calls, reorderings through the concurrent variant in multi-worker configurations and a count cache carried through every history, across 4 (thorough: 8) separately built feature configurations x 2-3 worker counts; transcript equality + truth-table model + structural/ref-count audit",
   "text": "The same recorder source is compiled per configuration; every observation (tables via the harness's interpreter, node counts, orders, gc effects, audit verdicts) of every enumerated operation and history step must equal the model and be identical in all builds.",
   "note": "MTBDD is index-backend only and therefore excluded; configurations are compared on the recorder's workloads (depth 3/4, n=3)",
   "ref": "3/C20"
